@@ -103,7 +103,7 @@ func part2(r *ev.Run) {
 	sem := make(chan struct{}, 6)
 	var wg sync.WaitGroup
 	for i, s := range specs {
-		if !r.Only(s.Name) {
+		if !selected(s.Name) {
 			continue
 		}
 		i, s := i, s
@@ -203,6 +203,9 @@ func part2(r *ev.Run) {
 		r.Sample(map[string]any{"config": name, "prefixes": cr.Prefixes, "counters": cr.Counters})
 	}
 	r.Extra("part2_configurations", len(specs))
+	if os.Getenv("VERIF_ONLY") != "" {
+		return // a replay runs one configuration; coverage requirements apply to full runs only
+	}
 	r.Require("auth_modes", "userpass", "basic", "token")
 	r.Require("methods", "GET", "HEAD", "POST", "PUT", "DELETE")
 	r.Require("credential_variants", "none", "wrong-basic", "wrong-token", "empty-basic")
